@@ -61,6 +61,7 @@ var c19ShapePrefix = map[string]string{
 	"repeated-repeated": "outer.inner.v.",
 	"optional":          "opt.v.",
 	"optional-repeated": "opt.inner.v.",
+	"repeated-optional": "items.opt.v.",
 }
 
 // the events of one row from the sizes of its groups (see c19Occ), by the Dremel rules of the ancestors
@@ -97,6 +98,17 @@ func c19AncestorEvents(shape string, sizes []int) []c19Ev {
 			return []c19Ev{{null: true}}
 		}
 		out = append(out, c19Ev{g: 1, r: 0, rep: 0})
+	case "repeated-optional": // items: repeated group { opt: optional group }; sizes[j] = 0: opt is null
+		if len(sizes) == 0 {
+			return []c19Ev{{null: true}}
+		}
+		for j, k := range sizes {
+			if k == 0 {
+				out = append(out, c19Ev{null: true, def: 1, rep: min(j, 1)})
+			} else {
+				out = append(out, c19Ev{g: 2, r: 1, rep: min(j, 1)})
+			}
+		}
 	case "optional-repeated": // opt: optional group { inner: repeated group }
 		if len(sizes) == 0 {
 			return []c19Ev{{null: true}}
@@ -941,7 +953,7 @@ func c19ForeignCases(ctx *core.Ctx, r *rand.Rand, d *drv.Driver, p *c19Pending) 
 	if d == nil {
 		return
 	}
-	switch r.Intn(8) {
+	switch r.Intn(9) {
 	case 0, 1, 2:
 		c19ForeignTop(ctx, r, d, p)
 	case 3, 4:
@@ -950,6 +962,8 @@ func c19ForeignCases(ctx *core.Ctx, r *rand.Rand, d *drv.Driver, p *c19Pending) 
 		c19ForeignNested(ctx, r, d, c19ShapeRep2)
 	case 6:
 		c19ForeignNested(ctx, r, d, c19ShapeOptRep)
+	case 7:
+		c19ForeignNested(ctx, r, d, c19ShapeRepOpt)
 	default:
 		c19ForeignNested(ctx, r, d, c19ShapeOpt)
 	}
